@@ -231,7 +231,13 @@ def run(res, f, tier):
         if not sorted_ok:
             ob(False, "C15|reserved-unsorted", "is_reserved_keyword uses a binary search but the keyword table is not sorted in byte order, so some reserved words are never found: %s" %
                [w for i, w in enumerate(words_in_order[1:]) if w.encode() < words_in_order[i].encode()][:5])
-    ob(member_contains or member_bsearch, "C15|reserved", "is_reserved_keyword must test membership of the unmodified name in the keyword table: %s" % [r["ret"] for r in rows])
+    # `TABLE.iter().any(|k| k == name)` is the same membership test
+    member_any = False
+    m_any = re.fullmatch(r"Iter::any\((?:\[str\]::iter|into_iter)\('[\w:]*KEYWORDS'\), closure\(([^,]+), name\)\)", rows[0]["ret"]) if len(rows) == 1 else None
+    if m_any:
+        cs = closure_with_captures(f, m_any.group(1), ["name"], ["k"])
+        member_any = cs in ([((), "str::eq(k, name)")], [((), "str::eq(name, k)")])
+    ob(member_contains or member_bsearch or member_any, "C15|reserved", "is_reserved_keyword must test membership of the unmodified name in the keyword table: %s" % [r["ret"] for r in rows])
     # keyword tables agree: every alphabetic keyword of the grammar is reserved for function names
     import grammar as _grammar
     import re as _re
